@@ -270,6 +270,61 @@ def check_C06(tier, replay):
     return rc
 
 
+ASHARE_DEV = {"aShare check bit": "flipbit", "aShare MAC in the decommitment": "badmac",
+              "aShare commitment to the MAC vector": "otherdm"}
+
+
+def ashare_model(v, tier, wd, jobs, out):
+    """Symbolic model of the aShare consistency round (AShare.tla, values as GF(2) vectors over atoms, Gf2.tla): for
+    every choice of bits and every deviation of the corrupted party, KeySecrecy (an honest global key is not in the span
+    of the corrupted party's view), CheatDetected and HonestRunOk hold for the repaired protocol; the unrepaired protocol
+    (FIXED = FALSE, negative control) must violate KeySecrecy. The model's prediction (a victim returns Err) is compared
+    with the outcomes of the replays on the real code."""
+    states = 0
+    cfgs = [(2, 0), (2, 1), (3, 0), (3, 2)] + ([] if tier == "quick" else [(3, 1), (4, 0), (4, 3), (5, 2)])
+    def mc(n, c, fixed):
+        cp = f"{wd}/ashare-{n}-{c}-{fixed}.cfg"
+        with open(cp, "w") as f:
+            f.write(f"SPECIFICATION Spec\nCONSTANTS\n N = {n}\n C = {c}\n FIXED = {'TRUE' if fixed else 'FALSE'}\n"
+                    "INVARIANT HonestRunOk\nINVARIANT KeySecrecy\nINVARIANT CheatDetected\nCHECK_DEADLOCK FALSE\n")
+        return vlib.run_tlc("AShare", cp, wd, workers=4, timeout=1800)
+    for (n, c) in cfgs:
+        r = mc(n, c, True)
+        if not r["ok"]:
+            raise vlib.ToolError(f"AShare (N={n}, C={c}) reports an error:\n" + vlib.strip_tlc(r["out"])[-1500:])
+        states += r["distinct"]
+    neg = 0
+    for (n, c) in ((2, 1), (3, 0)):
+        r = mc(n, c, False)
+        neg += 1
+        if r["ok"] or "KeySecrecy is violated" not in r["out"]:
+            raise vlib.ToolError("negative control failed: AShare without the claim verification does not violate KeySecrecy")
+    compared = mismatched = 0
+    res = {}
+    cur = None
+    for r in vlib.read_ndjson(out):
+        if r["ev"] == "cfg":
+            cur = r["run"]
+            res[cur] = {}
+        elif r["ev"] == "res":
+            res[cur][r["p"]] = r
+    for j in jobs:
+        t = j["tag"]
+        if t.get("what") not in ASHARE_DEV or j["id"] not in res:
+            continue
+        outs = {p: res[j["id"]][p]["kind"] for p in t["judge"] if p in res[j["id"]]}
+        compared += 1
+        # a bad MAC goes to one addressee (at least that one returns Err); a flipped bit / other vector reaches everybody
+        bad = (not any(k == "err" for k in outs.values())) if ASHARE_DEV[t["what"]] == "badmac" else \
+            any(k != "err" for k in outs.values())
+        if bad:
+            mismatched += 1
+            if mismatched <= 3:
+                v.spec_drift(f"AShare predicts Err at every party that receives '{t['what']}', run {j['id']} returned {outs}")
+    return {"states": states, "configs": [f"N={n},C={c}" for (n, c) in cfgs], "negative_controls_failed_as_required": neg,
+            "replayed_outcomes_compared_with_model": compared, "mismatches": f"{mismatched} mismatches"}
+
+
 def check_C07(tier, replay):
     v = Verdict("C07", tier, "exploration")
     wd = vlib.workdir("C07")
@@ -310,6 +365,7 @@ def check_C07(tier, replay):
     out = vlib.run_pt("engine", jobs, wd, name="c07", timeout=7200)
     res = vlib.tlc_trace("Mon_C07", vlib.MON_CFG, out, wd, depth_first=False, timeout=3600)
     jb = {j["id"]: j for j in jobs}
+    sym = ashare_model(v, tier, wd, jobs, out) if not replay else {}
     for x in res.get("viol", []):
         j = jb[x["run"]]
         v.violation(f"C07: {x['what']} [{j['tag'].get('what', 'honest run')}]", {"kind": "engine-job", "job": j, "party": x["p"]},
@@ -322,6 +378,7 @@ def check_C07(tier, replay):
                 "two of them (three for a small honest configuration in the thorough tier), nor occurs in the raw bytes",
         "samples": [{"job": jobs[0]["id"], "tag": jobs[0]["tag"]}, {"job": jobs[-1]["id"], "tag": jobs[-1]["tag"]}],
         "transcripts_scanned": res["checked"], "fields_scanned": res["fields"],
+        "symbolic_ashare_model": sym,
     }
     v.assumptions = ["opaque byte strings (OT matrix, base-OT points, row ciphertexts) are scanned only as raw bytes for the key itself",
                      "three-element XOR sets only in the thorough tier on one small configuration"]
